@@ -82,15 +82,18 @@ type event struct {
 }
 
 type callRec struct {
-	Name      string
-	Key       string
-	Cmd       uint16
-	Started   bool
-	Done      bool
-	Reply     *service.Message
-	Snap      snap
-	StepStart int
-	StepDone  int
+	Name       string
+	Key        string
+	Cmd        uint16
+	Started    bool
+	Done       bool
+	Reply      *service.Message
+	Snap       snap
+	StepStart  int
+	StepDone   int
+	ClockStart int64 // virtual nanoseconds
+	ClockDone  int64
+	TimeoutMs  int
 }
 
 type world struct {
@@ -285,7 +288,11 @@ func (w *world) newCall(name, key string, cmd uint16) *callRec {
 }
 
 //go:norace
-func (c *callRec) begin() { c.Started = true; c.StepStart = vs.StepNow() }
+func (c *callRec) begin() {
+	c.Started = true
+	c.StepStart = vs.StepNow()
+	c.ClockStart = vs.ClockNanos()
+}
 
 //go:norace
 func (c *callRec) end(m *service.Message, s snap) {
@@ -293,6 +300,7 @@ func (c *callRec) end(m *service.Message, s snap) {
 	c.Reply = m
 	c.Snap = s
 	c.StepDone = vs.StepNow()
+	c.ClockDone = vs.ClockNanos()
 }
 
 // call starts a caller thread doing one SendActiveMessage.
